@@ -69,10 +69,10 @@ func (r Int) MAX(a, b Int) Scalar {
 }
 /* -------------------------------------------------------------------------- */
 func (c Int) ABS(a Int) Scalar {
-  if c.Sign() == -1 {
-    c.NEG(a)
-  } else {
-    c.SET(a)
+  switch a.Sign() {
+  case -1: c.NEG(a)
+  case  0: c.Reset()
+  case  1: c.SET(a)
   }
   return c
 }
